@@ -66,10 +66,14 @@ pub struct Case {
     pub tx_prep: bool,
     /// board options: bit 0 rx_boost, bit 1 DC-DC (SX126x; on SX127x the PA pin comes from the variant), bit 2 TCXO
     pub board: u8,
+    /// adapter path only: the antenna gain / board loss G the LorawanRadio is instantiated with (the MAC has
+    /// already accounted for it in TxConfig.pw, so it must not change what is programmed)
+    pub gain: i8,
 }
+pub const GAINS: [i8; 3] = [0, -3, 6];
 impl Case {
     pub fn json(&self) -> Value {
-        json!({"kind":"power","variant":VARIANTS[self.variant],"path":PATHS[self.path],"dbm":self.dbm,"band_hz":self.band,"tx_prep":self.tx_prep,"board_options":self.board})
+        json!({"kind":"power","variant":VARIANTS[self.variant],"path":PATHS[self.path],"dbm":self.dbm,"band_hz":self.band,"tx_prep":self.tx_prep,"board_options":self.board,"adapter_antenna_gain":self.gain})
     }
     pub fn from_json(v: &Value) -> Option<Case> {
         Some(Case {
@@ -79,6 +83,7 @@ impl Case {
             band: v["band_hz"].as_u64().map(|x| x as u32),
             tx_prep: v["tx_prep"].as_bool().unwrap_or(true),
             board: v["board_options"].as_u64().unwrap_or(0) as u8,
+            gain: v["adapter_antenna_gain"].as_i64().unwrap_or(0) as i8,
         })
     }
 }
@@ -112,11 +117,20 @@ fn drive_lora<RK: RadioKind>(radio: RK, c: &Case, after_init: &dyn Fn()) -> Resu
     block_on(lora.prepare_for_tx(&mp, &mut pp, c.dbm as i32, &[1, 2, 3]))
 }
 
-/// LorawanRadio::tx with the requested power (TxConfig.pw is an i8)
+/// LorawanRadio::tx with the requested power (TxConfig.pw is an i8); the adapter is instantiated with the
+/// case's antenna gain G
 fn drive_lw<RK: RadioKind>(radio: RK, c: &Case, after_init: &dyn Fn()) -> Result<(), RadioError> {
+    match c.gain {
+        0 => drive_lw_g::<RK, 0>(radio, c, after_init),
+        -3 => drive_lw_g::<RK, -3>(radio, c, after_init),
+        _ => drive_lw_g::<RK, 6>(radio, c, after_init),
+    }
+}
+
+fn drive_lw_g<RK: RadioKind, const G: i8>(radio: RK, c: &Case, after_init: &dyn Fn()) -> Result<(), RadioError> {
     use lorawan_device::async_device::radio::{PhyRxTx, RfConfig, TxConfig};
     let lora = block_on(LoRa::new(radio, true, Delay))?;
-    let mut lw: lora_phy::lorawan_radio::LorawanRadio<RK, Delay, 22> = lora.into();
+    let mut lw: lora_phy::lorawan_radio::LorawanRadio<RK, Delay, 22, G> = lora.into();
     let rf = RfConfig { frequency: c.band.unwrap_or(868_100_000), bb: lora_modulation::BaseBandModulationParams::new(SpreadingFactor::_9, Bandwidth::_125KHz, CodingRate::_4_5), max_payload_len: 255 };
     after_init();
     match block_on(lw.tx(TxConfig { pw: c.dbm as i8, rf }, &[0x40, 1, 2, 3, 4, 0, 0, 0, 1, 9, 9, 9, 9])) {
@@ -384,26 +398,33 @@ pub fn sweep(ti: usize, n: usize, st: &mut Stats) {
                             if path != 0 && !(-128..=127).contains(&dbm) {
                                 continue;
                             }
-                            k += 1;
-                            if k % n != ti {
-                                continue;
-                            }
-                            let c = Case { variant, path, dbm, band, tx_prep, board };
-                            st.eval();
-                            st.class(&format!("power:{}", VARIANTS[variant]));
-                            st.class(&format!("power:path:{}", PATHS[path]));
-                            let (lo, hi) = range_of(variant, band);
-                            if dbm <= lo || dbm >= hi {
-                                st.nt_distinct();
-                                st.class("power:at-or-beyond-clamp-edge");
-                            }
-                            match run_case(&c) {
-                                Ok(()) => {
-                                    if st.samples.len() < 4 && (k % 997 == 5) {
-                                        st.sample(c.json());
-                                    }
+                            // the adapter is instantiated with every antenna gain of GAINS
+                            let gains: &[i8] = if path == 2 { &GAINS } else { &GAINS[..1] };
+                            for &gain in gains {
+                                k += 1;
+                                if k % n != ti {
+                                    continue;
                                 }
-                                Err(f) => st.fail(f),
+                                let c = Case { variant, path, dbm, band, tx_prep, board, gain };
+                                st.eval();
+                                st.class(&format!("power:{}", VARIANTS[variant]));
+                                st.class(&format!("power:path:{}", PATHS[path]));
+                                if gain != 0 {
+                                    st.class("power:adapter-with-antenna-gain");
+                                }
+                                let (lo, hi) = range_of(variant, band);
+                                if dbm <= lo || dbm >= hi {
+                                    st.nt_distinct();
+                                    st.class("power:at-or-beyond-clamp-edge");
+                                }
+                                match run_case(&c) {
+                                    Ok(()) => {
+                                        if st.samples.len() < 4 && (k % 997 == 5) {
+                                            st.sample(c.json());
+                                        }
+                                    }
+                                    Err(f) => st.fail(f),
+                                }
                             }
                         }
                     }
